@@ -11,8 +11,10 @@ static int
 table_errors (int lo, int hi)
 {	int k ;
 	for (k = lo ; k <= hi ; k++)
-	{	printf ("%d ", k) ;
-		put_cstr (sf_error_number (k)) ;
+	{	const char *m = sf_error_number (k) ;	/* the library itself prints a line for invalid numbers: keep it off ours */
+		fflush (stdout) ;
+		printf ("%d ", k) ;
+		put_cstr (m) ;
 		printf ("\n") ;
 		}
 	return 0 ;
